@@ -2684,7 +2684,7 @@ func builtinHolds(st *fstate, p *Term, b Bind) (bool, bool) {
 		// x != c holds when x is known to equal a different constant
 		if len(g.A) == 2 && !hasPV(g) {
 			for i := 0; i < 2; i++ {
-				x, c := g.A[i], g.A[1-i]
+				x, c := stripConv(g.A[i]), stripConv(g.A[1-i])
 				if c.K != "const" {
 					continue
 				}
@@ -2693,10 +2693,10 @@ func builtinHolds(st *fstate, p *Term, b Bind) (bool, bool) {
 						continue
 					}
 					for j := 0; j < 2; j++ {
-						if fc.A[j].Key() != x.Key() {
+						if stripConv(fc.A[j]).Key() != x.Key() {
 							continue
 						}
-						o := fc.A[1-j]
+						o := stripConv(fc.A[1-j])
 						ov, ok := constValueOf(o)
 						if !ok {
 							continue
@@ -3139,4 +3139,12 @@ func (s *fstate) sortedKeys() []string {
 	}
 	sort.Strings(ks)
 	return ks
+}
+
+// stripConv: a value conversion does not change which constant a value equals.
+func stripConv(t *Term) *Term {
+	for t.K == "conv" && len(t.A) == 1 {
+		t = t.A[0]
+	}
+	return t
 }
